@@ -4,41 +4,18 @@ From DSL Require Import Model Generated_contexts Lemmas.
 
 (* ---- Part 1: reference integrity of accepted designs ---- *)
 
-(* A design the model accepts has no dangling reference of any checked kind: mapped
-   path / query / header / cookie / body / MapParams names are payload attributes,
-   response header / cookie / body names are result attributes (in every view, or in
-   the fixed view), error responses name declared errors and attributes of their
-   types, requirements name registered schemes and their scopes, Result views and
-   view attributes exist, Required names are attributes Find reaches. (partial: every
-   reference kind except Tag attributes, see the next theorem) *)
-Theorem accepted_refs_resolve_partial d :
-  validate d = [] -> forall r, In r (refs d) -> is_tag r = false -> resolves r.
+(* A design the model accepts has no dangling reference of any kind: mapped path /
+   query / header / cookie / body / MapParams names are payload attributes, response
+   header / cookie / body names and Tag attributes are result attributes (in every view,
+   or in the fixed view), error responses name declared errors and attributes of their
+   types, requirements name registered schemes, their scopes and find their credential
+   attributes, views and view attributes exist, Required names are attributes Find
+   reaches - also below maps. (Full: since the Tag check and the descent of Validate
+   into maps were added to goa, no reference kind is left out.) *)
+Theorem accepted_refs_resolve d :
+  validate d = [] -> forall r, In r (refs d) -> resolves r.
 Proof. exact (refs_resolve d). Qed.
-Print Assumptions accepted_refs_resolve_partial.
-
-(* the full statement is false of the faithful model: no clause checks the attribute
-   a response Tag names (finding dangling-tag-accepted) *)
-Theorem tag_ref_unchecked_refuted :
-  exists d, validate d = [] /\ exists r, In r (refs d) /\ is_tag r = true /\ ~ resolves r.
-Proof.
-  exists tag_design. split; [exact tag_design_accepted|].
-  exists (RTag tag_method 2). destruct tag_design_dangling as [Hin Hn]. repeat split; assumption.
-Qed.
-Print Assumptions tag_ref_unchecked_refuted.
-
-(* Validate does not descend into map elements (Finalize does): a Required name that
-   does not exist below a map is accepted (finding dangling-required-under-map-accepted) *)
-Theorem required_under_map_unchecked_refuted :
-  exists d n x, validate d = [] /\
-    (exists v, finalize_attr (d_graph d) (graph_fuel (d_graph d)) [] 0 = Some v /\ In n v) /\
-    (exists nd, get (d_graph d) n = Some nd /\ In x (n_req nd)) /\
-    gfind (d_graph d) (find_fuel (d_graph d)) n x = Some None.
-Proof.
-  exists reqmap_design, 3, 3. split; [exact reqmap_accepted|].
-  destruct reqmap_dangling as [Hr Hf]. split; [exact Hr|]. split; [|exact Hf].
-  eexists. split; [reflexivity|]. simpl. tauto.
-Qed.
-Print Assumptions required_under_map_unchecked_refuted.
+Print Assumptions accepted_refs_resolve.
 
 (* every reference is checked, not only the first per type: the `validated` memo is keyed
    by the attribute, so EVERY attribute that can be reached from a method payload / result
@@ -132,20 +109,30 @@ Theorem unguarded_walk_diverges_refuted :
 Proof. exists selfrec_graph, 0. exact unguarded_diverges_selfrec. Qed.
 Print Assumptions unguarded_walk_diverges_refuted.
 
-(* AttributeExpr.Find has no guard: it terminates when Extend / Reference / type
-   wrapping is well founded ... *)
-Theorem find_fuel_sufficient_partial g rk :
-  ranked g rk -> forall fuel n x, rk n < fuel -> gfind g fuel n x <> None.
-Proof. exact (gfind_terminates g rk). Qed.
-Print Assumptions find_fuel_sufficient_partial.
+(* AttributeExpr.Find carries a visited set: it terminates on every graph, whatever
+   extends or references whatever (Full: replaces find_fuel_sufficient_partial /
+   find_extend_cycle_diverges_refuted of the unrepaired code) *)
+Theorem find_fuel_sufficient g n x : exists s r, gfind g (S (List.length g)) [] n x = Some (s, r).
+Proof. exact (gfind_total g n x). Qed.
+Print Assumptions find_fuel_sufficient.
 
-(* ... and not otherwise: a type that extends itself (or two that extend each other)
-   makes Find recurse for ever on a name it does not have (finding
-   fatal:stack-overflow in AttributeExpr.Find) *)
-Theorem find_extend_cycle_diverges_refuted :
-  exists g n x, forall fuel, gfind g fuel n x = None.
-Proof. exists selfext_graph, 0, 7. exact gfind_diverges_selfext. Qed.
-Print Assumptions find_extend_cycle_diverges_refuted.
+Theorem find_total_from_any_state g x fuel seen n :
+  unvis (List.length g) seen < fuel -> exists s r, gfind g fuel seen n x = Some (s, r) /\ incl seen s.
+Proof. exact (gfind_terminates g x fuel seen n). Qed.
+Print Assumptions find_total_from_any_state.
+
+(* hasTag / hasTagPrefix (expr/method.go) still recurse through bases and user types
+   without a guard: they terminate when Extend is well founded ... *)
+Theorem hastag_fuel_sufficient_partial has bases user rk :
+  ranked bases user rk -> forall fuel n, rk n < fuel -> ghastag has bases user fuel n <> None.
+Proof. exact (ghastag_terminates has bases user rk). Qed.
+Print Assumptions hastag_fuel_sufficient_partial.
+
+(* ... and not on a type that extends itself (finding fatal:stack-overflow in expr.hasTag) *)
+Theorem hastag_extend_cycle_diverges_refuted :
+  exists has bases user n, forall fuel, ghastag has bases user fuel n = None.
+Proof. exists (fun _ => false), (fun _ => [0]), (fun _ => None), 0. exact ghastag_diverges_selfext. Qed.
+Print Assumptions hastag_extend_cycle_diverges_refuted.
 
 (* ---- Part 3: misplaced calls are reported ---- *)
 
@@ -207,6 +194,17 @@ Proof. split; [exact table_agrees_b|exact (entries_agree_calls table documented 
 Print Assumptions table_agrees_with_documented.
 
 (* ---- non-vacuity ---- *)
+
+(* the designs that used to be accepted with a dangling reference are rejected *)
+Example dangling_tag_rejected : validate tag_design = [ETag 2].
+Proof. exact tag_design_rejected. Qed.
+
+Example dangling_required_under_map_rejected : validate reqmap_design = [ERequired 3].
+Proof. exact reqmap_rejected. Qed.
+
+(* A extends B, B extends A: Find answers "not found" for a name neither has *)
+Example find_on_mutual_extend : exists s, gfind mutext_graph (S (List.length mutext_graph)) [] 0 7 = Some (s, None).
+Proof. exact gfind_mutext. Qed.
 
 (* Payload { a }, Header("zzz"): rejected with exactly that error. names a = 1, zzz = 9 *)
 Example dangling_header_rejected :
